@@ -36,6 +36,7 @@ import (
 	"flag"
 	"fmt"
 	"io"
+	"net"
 	"os"
 	"runtime"
 	"sort"
@@ -148,6 +149,7 @@ type kase struct {
 	g        int64
 	bridge   bool
 	noExec   bool     // no CommandExecutor installed on the nodes
+	xnode    bool     // every node has a connection-state store, a cross-node pool and a cross-node listener (real TCP, loopback)
 	direct   bool     // entry point SessionManager.ProcessCommand instead of HandlePacket
 	extra    int64    // != 0: every identity-like key is added to the body with this foreign value
 	extraKey []string // key:n | key:s
@@ -196,6 +198,10 @@ func parseCase(s string) (*kase, error) {
 	}
 	if i+1 < len(t) && t[i] == "ne" {
 		k.noExec = t[i+1] == "1"
+		i += 2
+	}
+	if i+1 < len(t) && t[i] == "xn" {
+		k.xnode = t[i+1] == "1"
 		i += 2
 	}
 	next := func(tag string) (int, error) {
@@ -317,6 +323,7 @@ type world struct {
 	cancel   context.CancelFunc
 	sms      []*session.SessionManager // one per node
 	hub      *hub
+	cleanup  []func()
 	stor     *flakyStorage
 	skm      *security.SecretKeyManager
 	cfgRepo  *repos.ClientConfigRepository
@@ -706,6 +713,29 @@ func buildWorld(k *kase) (*world, error) {
 		sm.SetNodeID(fmt.Sprintf("verif-node-%d", n))
 		if k.bridge {
 			sm.SetBridgeManager(&bridge{hub: w.hub, nodeID: fmt.Sprintf("verif-node-%d", n)})
+		}
+		if k.xnode {
+			// the cross-node machinery of a multi-node deployment: client locations in the shared store, a listener for
+			// frames from other nodes, a pool of connections to them
+			nodeID := fmt.Sprintf("verif-node-%d", n)
+			sm.SetConnectionStateStore(session.NewConnectionStateStore(stor, nodeID, time.Minute))
+			l := session.NewCrossNodeListener(sm, 0)
+			if err := l.Start(ctx); err != nil {
+				return nil, fmt.Errorf("cross-node listener: %w", err)
+			}
+			w.cleanup = append(w.cleanup, func() { _ = l.Stop() })
+			_, port, err := net.SplitHostPort(l.VerifAddr())
+			if err != nil {
+				return nil, err
+			}
+			if err := stor.Set("tunnox:node:"+nodeID+":addr", net.JoinHostPort("127.0.0.1", port), 0); err != nil {
+				return nil, err
+			}
+			cfg := session.DefaultCrossNodePoolConfig()
+			cfg.MinConns, cfg.MaxConns, cfg.DialTimeout = 0, 2, 2*time.Second
+			pool := session.NewCrossNodePool(ctx, stor, nodeID, cfg)
+			w.cleanup = append(w.cleanup, func() { pool.Close() })
+			sm.SetCrossNodePool(pool)
 		}
 		auth := server.NewServerAuthHandler(cc, sm, nil, nil, nil, w.skm)
 		sm.SetAuthHandler(&authTap{real: auth, w: w})
@@ -1244,6 +1274,11 @@ func runOnce(k *kase, claimed bool) string {
 			return
 		}
 		defer w.cancel()
+		defer func() {
+			for _, f := range w.cleanup {
+				f()
+			}
+		}()
 		ids := clientIDs(k)
 		before := w.snapshot(ids)
 		cmd := &packet.CommandPacket{CommandType: packet.CommandType(k.ctype), CommandId: fmt.Sprintf("cmd-verif-%d", atomic.AddInt64(&cmdSeq, 1)), CommandBody: w.body(k)}
@@ -1474,6 +1509,11 @@ func runCase(caseStr string) (cr caseResult) {
 	if k.snd != "0" || k.rcv != "0" || k.tok != "-" || k.extra != 0 || (k.g != 0 && !addressedType(k)) {
 		b = runOnce(k, false)
 	}
+	if k.xnode && !xnSimple(k) {
+		// with the cross-node machinery the model assumes one single-step connection per client (where a client is found
+		// is then unambiguous); other worlds are judged by the predicate only
+		return caseResult{line: key + "x " + caseStr[2:], obs: a + " ~ " + b, key: caseStr, counts: []string{"excluded-point:cross-node-world-not-simple"}}
+	}
 	if k.direct {
 		// SessionManager.ProcessCommand hands the packet to the executor without the special cases of handleCommandPacket:
 		// not modelled, judged by the property predicate only
@@ -1485,6 +1525,22 @@ func runCase(caseStr string) (cr caseResult) {
 		return caseResult{line: key + "x " + caseStr[2:], obs: a + " ~ " + b, key: caseStr, counts: []string{"excluded-point:read-fault-unmodelled-command"}}
 	}
 	return caseResult{line: key + caseStr, obs: a + " ~ " + b, key: caseStr}
+}
+
+func xnSimple(k *kase) bool {
+	seen := map[int64]bool{}
+	for _, c := range k.conns {
+		if len(c.steps) != 1 {
+			return false
+		}
+		if c.kind == 'A' && c.cid > 0 {
+			if seen[c.cid] {
+				return false
+			}
+			seen[c.cid] = true
+		}
+	}
+	return k.faults == 0
 }
 
 func faultModelled(k *kase) bool {
@@ -1685,6 +1741,32 @@ func gen(out *vc.Out, r *vc.Rand, thorough bool) {
 						execCase(out, caseStr(ct, false, from, o, o, fmt.Sprint(o), false, 0, 0, 0, 0, w))
 					}
 					out.Count("small-scope:code-domain-ownership")
+				}
+			}
+		}
+	}
+	// 1g. cross-node DNS query: sender identity x where the target is (same node / other node / nowhere) x claimed fields
+	//     and extra body keys, with the real connection-state store, cross-node pool and listener between two nodes
+	for _, place := range []string{"same", "other", "nowhere"} {
+		cs := []string{"A1001", "A1003", "U0", "N0", "P1004", "A2002@1"}
+		switch place {
+		case "same":
+			cs = append(cs, "A1002")
+		case "other":
+			cs = append(cs, "A1002@1")
+		}
+		w := strings.Replace(worldStr(cs, []string{"1001:1002:s:a"}, nil, nil), "W ", "W xn 1 ", 1)
+		for _, ct := range []int{121, 120, 102, 90} {
+			for from := 0; from < 6; from++ {
+				for _, g := range []int64{B, 2002, 1003, 0} {
+					base := caseStr(ct, false, from, 0, 0, "-", false, 0, g, 0, 0, w)
+					execCase(out, base)
+					execCase(out, withExtras(reClaim(base, "@c0", "@c5", "9999"), 2002))
+					if thorough {
+						execCase(out, withExtras(base, 1003))
+						execCase(out, reClaim(base, "2002", "1002", "@c1"))
+					}
+					out.Count("cross-node:" + place)
 				}
 			}
 		}
